@@ -504,8 +504,11 @@ fn object(p: &mut Parser) -> CompletedMarker {
 				m.complete(p, MEMBER_FIELD_NORMAL)
 			};
 		}
-		while p.at_ts(COMPSPEC) {
-			compspecs.push(compspec(p));
+		// A comprehension starts with `for`; `if` can only follow it
+		if p.at_ts(TS![for]) {
+			while p.at_ts(COMPSPEC) {
+				compspecs.push(compspec(p));
+			}
 		}
 		if comma_with_alternatives(p, TS![;]) {
 			continue;
@@ -630,8 +633,11 @@ fn array(p: &mut Parser) -> CompletedMarker {
 		}
 		expr(p);
 		elems += 1;
-		while p.at_ts(COMPSPEC) {
-			compspecs.push(compspec(p));
+		// A comprehension starts with `for`; `if` can only follow it
+		if p.at_ts(TS![for]) {
+			while p.at_ts(COMPSPEC) {
+				compspecs.push(compspec(p));
+			}
 		}
 		if comma(p) {
 			continue;
